@@ -5,7 +5,7 @@ open AbtemVerif AbtemVerif.Proto AbtemVerif.Slicing
 /- requests:
    validate <s:RAT|l:LIST> <H>      -> ok <thicknesses>            (`_validate_slice_thickness(…, thickness=H)`)
    limits <ts>                      -> ok a:b,a:b,…                (`slice_limits`)
-   index <ts> <H> <zs>              -> ok <i,j;…>                  (`SliceIndexedAtoms._slice_index`, sorted)
+   index <ts> <zs>                  -> ok <i,j;…>                  (`SliceIndexedAtoms._slice_index`, sorted)
    members <ts> <pad> <zs> <i>      -> ok <indices>                (`SlicedAtoms.get_atoms_in_slices(i)` membership)
    prepare <H> <zs>                 -> ok <z'…>                    (`_prepare_atoms`: wrap + snap)
    replies `err <kind>` / `bad-op` -/
@@ -28,10 +28,10 @@ def handle : List String → String
     match parseList? parseRat? ts with
     | some ts => "ok " ++ showList (fun (p : Rat × Rat) => showRat p.1 ++ ":" ++ showRat p.2) (sliceLimits ts)
     | none => "bad-op"
-  | ["index", ts, H, zs] =>
-    match parseList? parseRat? ts, parseRat? H, parseList? parseRat? zs with
-    | some ts, some H, some zs => reply (showListList toString) (sliceIndexTop ts H zs)
-    | _, _, _ => "bad-op"
+  | ["index", ts, zs] =>
+    match parseList? parseRat? ts, parseList? parseRat? zs with
+    | some ts, some zs => reply (showListList toString) (sliceIndexTop ts zs)
+    | _, _ => "bad-op"
   | ["members", ts, pad, zs, i] =>
     match parseList? parseRat? ts, parseRat? pad, parseList? parseRat? zs, parseNat? i with
     | some ts, some pad, some zs, some i => reply (showList toString) (slicedMembers ts pad zs i)
